@@ -57,6 +57,9 @@ func (d *Document) NextLexeme() (lexeme.LexEvent, error) {
 }
 
 func (d *Document) Len() (uint, error) {
+	// The first call leaves the document rewound; so does every later one,
+	// which is answered from the cache.
+	defer d.rewind()
 	return d.lenOnce.Do(func() (uint, error) {
 		return d.computeLen()
 	})
@@ -84,6 +87,8 @@ func (d *Document) computeLen() (length uint, err error) {
 }
 
 func (d *Document) Check() error {
+	// See Len: NextLexeme starts from the beginning after every Check.
+	defer d.rewind()
 	return d.checkOnce.Do(func() error {
 		return d.check()
 	})
